@@ -169,6 +169,84 @@ def run_for(pid: str, chk: Check, jobs: int = 16) -> None:
         raise AnalysisError(f"self-test: {len(missed)} seeded variant(s) not detected: {[v.name for v, _ in missed]}")
 
 
+def _seeded_job(args):
+    pid, root, sid = args
+    import json
+    import shutil
+    import subprocess
+    import tempfile
+
+    here = os.path.dirname(os.path.dirname(os.path.abspath(__file__)))
+    d = os.path.join(here, "seeded", sid)
+    scratch = tempfile.mkdtemp(prefix=f"verif-seededreg-{sid}-")
+    try:
+        for scope in Repo.SCOPES:
+            shutil.copytree(os.path.join(root, scope), os.path.join(scratch, scope), ignore=shutil.ignore_patterns("__pycache__", "*.pyc"))
+        r = subprocess.run(["patch", "-p1", "-s", "-d", scratch, "-i", os.path.join(d, "patch.diff")], capture_output=True, text=True)
+        if r.returncode != 0:
+            return sid, "stale", [(r.stdout + r.stderr)[-200:]]
+        mod = importlib.import_module(f"sa.rules.{pid.lower()}")
+        base = Check(pid, Repo(root), "quick")
+        base.in_selftest = True
+        mod.run(base)
+        baseline = {f.key for f in base.findings}
+        chk = Check(pid, Repo(scratch), "quick")
+        chk.in_selftest = True
+        try:
+            mod.run(chk)
+        except AnalysisError as e:
+            return sid, "missed", [f"analysis error instead of a finding: {e}"]
+        new = [f for f in chk.findings if f.key not in baseline]
+        return sid, ("detected" if new else "missed"), [f"{f.rule} {f.construct} :: {f.detail}" for f in new][:3]
+    finally:
+        shutil.rmtree(scratch, ignore_errors=True)
+
+
+def run_seeded_for(pid: str, chk: Check, jobs: int = 8) -> None:
+    """Thorough tier: every kept seeded change (/verif/seeded/<id>/, written by independent authors) that
+    this check is recorded to catch (meta.json: expect[pid] == "caught") is applied to a scratch copy of
+    the analysed tree and must still be reported.  A change that is no longer detected means the checker
+    lost its teeth: ANALYSIS-ERROR, never a violation.  A patch that no longer applies is 'stale' (noted)."""
+    import json
+
+    here = os.path.dirname(os.path.dirname(os.path.abspath(__file__)))
+    sdir = os.path.join(here, "seeded")
+    if not os.path.isdir(sdir):
+        return
+    todo = []
+    for sid in sorted(os.listdir(sdir)):
+        mp = os.path.join(sdir, sid, "meta.json")
+        if not os.path.isfile(mp) or not os.path.isfile(os.path.join(sdir, sid, "patch.diff")):
+            continue
+        try:
+            meta = json.load(open(mp))
+        except Exception:
+            continue
+        if (meta.get("expect") or {}).get(pid) == "caught":
+            todo.append(sid)
+    if not todo:
+        return
+    import multiprocessing as mp_
+
+    ctx = mp_.get_context("fork")
+    with ctx.Pool(min(jobs, len(todo))) as pool:
+        results = pool.map(_seeded_job, [(pid, chk.repo.root, sid) for sid in todo])
+    missed = [(sid, info) for sid, st, info in results if st == "missed"]
+    stale = [sid for sid, st, info in results if st == "stale"]
+    chk.extra["seeded_changes"] = {
+        "expected_to_be_caught": todo,
+        "detected": [sid for sid, st, _ in results if st == "detected"],
+        "stale": stale,
+        "missed": [sid for sid, _ in missed],
+    }
+    chk.note(f"seeded changes by independent authors: {len(todo) - len(missed) - len(stale)}/{len(todo)} still reported, {len(stale)} stale.")
+    print(f"seeded {pid}: {len(todo) - len(missed) - len(stale)}/{len(todo)} reported, {len(stale)} stale, {len(missed)} missed")
+    if missed:
+        for sid, info in missed:
+            print(f"  seeded change {sid} is no longer reported by {pid}: {info}")
+        raise AnalysisError(f"seeded change(s) no longer detected: {[sid for sid, _ in missed]}")
+
+
 def main() -> int:
     """python -m sa.selftest <PID> [--root DIR]: run variants and list results."""
     import argparse
